@@ -84,6 +84,9 @@ struct host_query {
 
   /* Track nodata responses to possibly override final result */
   size_t                nodata_cnt;
+
+  /* An answer (or a whole sub-request) was lost to an allocation failure */
+  ares_bool_t           nomem;
 };
 
 static const struct ares_addrinfo_hints default_hints = {
@@ -543,12 +546,20 @@ static void host_callback(void *arg, ares_status_t status, size_t timeouts,
     }
   }
 
+  if (status == ARES_ENOMEM || addinfostatus == ARES_ENOMEM) {
+    hquery->nomem = ARES_TRUE;
+  }
+
   if (!hquery->remaining) {
     if (status == ARES_EDESTRUCTION || status == ARES_ECANCELLED) {
       /* must make sure we don't do next_lookup() on destroy or cancel,
        * and return the appropriate status.  We won't return a partial
        * result in this case. */
       end_hquery(hquery, status);
+    } else if (hquery->nomem) {
+      /* don't report the other address family's answer as the complete
+       * result when this one was lost to an allocation failure */
+      end_hquery(hquery, ARES_ENOMEM);
     } else if (addinfostatus != ARES_SUCCESS && addinfostatus != ARES_ENODATA) {
       /* error in parsing result e.g. no memory */
       if (addinfostatus == ARES_EBADRESP && hquery->ai->nodes) {
